@@ -174,7 +174,7 @@ def base_inputs(tier, seed):
             for k, ex in enumerate(srcsplit.excerpts(_read(p), 60)):
                 lib_ex.append(_mk("lib/%s@%d" % (base, k), "lib", base, {base: ex}, []))
         rng.shuffle(lib_ex)
-        inputs += sorted(lib_ex[:250], key=lambda x: x["label"])
+        inputs += sorted(lib_ex[:200], key=lambda x: x["label"])
     # multi-configuration files: the hand-written ones and excerpts whose functions are wrapped into conditionals
     for name, text in sorted(IFDEF_FILES.items()):
         inputs.append(_mk("ifdef/" + name, "ifdef", name, {name: text}, []))
@@ -240,7 +240,7 @@ def generated_programs(tier, seed):
 def mutants(inputs, tier, seed):
     rng = random.Random(seed * 7919 + 13)
     res = []
-    n = 60 if tier == "quick" else 3000
+    n = 60 if tier == "quick" else 2000
     for k in range(n):
         src = inputs[rng.randrange(len(inputs))]
         text = src["files"][src["main"]]
@@ -435,7 +435,8 @@ def main(tier, seed, replay=None):
     vlib.build()
     if replay:
         return do_replay(replay)
-    max_tokens = 1500 if tier == "quick" else 4000
+    # TLC's cost per configuration grows quadratically with the token count (id -> position map): larger configurations are counted as skipped
+    max_tokens = 1200 if tier == "quick" else 2000
     inputs = base_inputs(tier, seed) + generated_programs(tier, seed)
     inputs += mutants(inputs, tier, seed)
     m, bad, by_name = explore(inputs, max_tokens)
@@ -460,7 +461,7 @@ def main(tier, seed, replay=None):
         "evaluations": m["judged"], "distinct_nontrivial": len(m["shapes"]),
         "rule": "one evaluation = one <dump cfg> (or one dump file without configuration) judged by TLC against all DumpInv invariants + SameGraph; "
                 "distinct = different canonical token/link/AST/varId structure (ids replaced by positions); non-trivial = has at least one bracket "
-                "link and one AST edge. Inputs: all samples, all test/cli sources, excerpts of test/cfg (quick: seeded sample; thorough: all + 250 excerpts of lib/*.cpp), "
+                "link and one AST edge. Inputs: all samples, all test/cli sources, excerpts of test/cfg (quick: seeded sample; thorough: all + 200 excerpts of lib/*.cpp), "
                 "multi-#ifdef files, generated expression/statement programs, seeded token-level mutants",
         "samples": m["samples"], "exhaustive": False,
         "inputs": len(inputs), "run_status": m["status"], "per_stratum": per_stratum,
